@@ -264,6 +264,41 @@ func run(raw json.RawMessage) (common.Case, error) {
 				}
 			}
 		}
+		if !ret && !crashed && sy.Crash < 0 && sy.Fail < 0 && len(sy.Labels) > 0 && c.GoPred == "" {
+			// an undisturbed sync failed: a compacted block must be blocked by an overlap in the bucket
+			type rg struct{ a, b int64 }
+			var vis []rg
+			for n, body := range post {
+				if !strings.HasSuffix(n, "/"+block.MetaFilename) {
+					continue
+				}
+				var m metadata.Meta
+				if json.Unmarshal(body, &m) != nil || env.Lbl(m.Thanos.Labels) != env.Lbl(sy.Labels) {
+					continue
+				}
+				vis = append(vis, rg{m.MinTime, m.MaxTime})
+			}
+			meet := func(x, y rg) bool { return x.a < y.b && y.a < x.b }
+			reason := false
+			for _, p := range sy.Present {
+				s := in.Blocks[p]
+				if _, ok := post[cu.BlockULID(p).String()+"/"+block.MetaFilename]; ok || s.NumSamples == 0 || s.Level <= 1 || !sy.UC || sy.OOO {
+					continue
+				}
+				all := append([]rg{{s.MinTime, s.MaxTime}}, vis...)
+				for i := range all {
+					for j := i + 1; j < len(all); j++ {
+						if meet(all[i], all[j]) {
+							reason = true
+						}
+					}
+				}
+			}
+			if !reason {
+				c.GoPred = fmt.Sprintf("sync %d had no fault and returned an error (%v) although no compacted block overlaps anything in the bucket", si, rerr)
+				c.Sig = "sync-wedged"
+			}
+		}
 		if c.GoPred == "" {
 			for _, p := range mfAfterNums {
 				if _, ok := post[cu.BlockULID(p).String()+"/"+block.MetaFilename]; !ok && !inList(mfBeforeNums, p) {
